@@ -133,3 +133,9 @@ pub fn seed_bytes(seed: u64, stream: u64, index: u64) -> [u8; 32] {
     }
     out
 }
+
+/// `catch_unwind` that does not demand `UnwindSafe` from the tested crate's types (a cache in a `RefCell` inside the
+/// generator's settings is a legitimate change and must not break the harness build)
+pub fn catch<F: FnOnce() -> R, R>(f: F) -> std::thread::Result<R> {
+    std::panic::catch_unwind(std::panic::AssertUnwindSafe(f))
+}
